@@ -90,6 +90,8 @@ class CallMixin:
                 return self.call_lambda(f, args, p, R, node)
             if kind == "oracle":
                 return self.call_oracle(f, args, p, R, node)
+            if kind == "nested":
+                return self.call_nested(f.z[1], args, kwargs, p, R, node)
         if f.tag == "method":
             recv, name = f.z
             if recv.tag == "lref":
@@ -667,6 +669,34 @@ class CallMixin:
             else:
                 raise Unsupported("inline control flow")
         return outs
+
+    # ------------------------------------------------------------------ nested functions under contract
+    def call_nested(self, st, args, kwargs, p: Path, R, node):
+        """Call of a function defined in the body of the function under verification (or the recursive call inside that
+        nested function): modular, against the contract registered as '<outer>.<locals>.<name>'.  Captured variables
+        travel as pseudo-arguments <name>__in; a `nonlocal` one is havocked to <name>__out, which the ensures constrain."""
+        base = self.qual.rsplit(".<locals>.", 1)[0] if ".<locals>." in self.qual else self.qual
+        qual = f"{base}.<locals>.{st.name}"
+        c = REGISTRY.get(qual)
+        if c is None:
+            raise Unsupported(f"call of the nested function {st.name} which has no contract (line {node.lineno})")
+        bound = self.bind_args(st, None, args, kwargs, node)
+        if "__typeerror__" in bound:
+            R.append((p, ExcV("TypeError", site=f"L{node.lineno}/call {st.name}")))
+            return []
+        for nm, (tag, mode) in c.captures.items():
+            if nm not in p.env:
+                raise Unsupported(f"captured variable {nm} of {st.name} is not bound at the call (line {node.lineno})")
+            bound[nm + "__in"] = p.env[nm]
+            if mode == "inout":
+                if tag != "int":
+                    raise Unsupported(f"nonlocal {nm} of tag {tag}")
+                out = IntV(L.fresh(f"{nm}_after_{st.name}", L.I))
+                bound[nm + "__out"] = out
+        for nm, (tag, mode) in c.captures.items():
+            if mode == "inout":
+                p.env[nm] = bound[nm + "__out"]  # before the contract forks its outcomes: every outcome sees the new binding
+        return self.apply_contract(c, qual, bound, p, R, node)
 
     # ------------------------------------------------------------------ user callbacks: oracles
     def call_oracle(self, f: SV, args, p: Path, R, node):
